@@ -535,7 +535,7 @@ Proof. intros A B f [[a|e|e] l] b H; cbn in H; try discriminate. inversion H. no
 Lemma append_grow_cases : forall c cap,
   cap <= 2 * c ->
   let '(cap', lg) := append_grow sizeof_raw c cap in
-  cap' <= 2 * (c + 1) /\ log_cost lg + 176 * cap <= 176 * cap' /\ log_cost lg <= 176 * c + 88 /\ log_ok lg.
+  cap' <= 2 * (c + 1) /\ log_cost lg + 192 * cap <= 192 * cap' /\ log_cost lg <= 192 * c + 96 /\ log_ok lg.
 Proof.
   intros c cap H. unfold append_grow, sizeof_raw.
   destruct (N.eqb_spec c cap) as [E|E].
@@ -545,14 +545,23 @@ Proof.
   - cbn [log_cost]. split; [lia|]. split; [lia|]. split; [lia|log_tac].
 Qed.
 
-Lemma der_items_spec : forall fuel rest c cap,
-  cap <= 2 * c ->
-  let m := der_parse_items fuel rest c cap in
-  log_cost (snd m) + 176 * cap <= 216 * lenN rest + 352 * c /\
+(* the children of one element, as parseRaw computes them at level [depth] *)
+Definition der_children (f : nat) (h : der_hdr) (content : bytes) (depth : N) : cres (list raw) :=
+  if h_compound h && (0 <? h_len h) then
+    (if der_max_depth <? depth + 1 then rfail "asn1struct: elements nested too deeply"
+     else der_parse_items f content 0 0 (depth + 1))
+  else rret [].
+
+Lemma der_items_spec : forall fuel rest c cap depth,
+  cap <= 2 * c -> depth <= der_max_depth ->
+  let m := der_parse_items fuel rest c cap depth in
+  log_cost (snd m) + 192 * cap <= 232 * lenN rest + 384 * c /\
   log_ok (snd m) /\
-  (forall items, fst m = Ok items -> 2 * N.of_nat (raws_depth items) <= lenN rest).
+  (forall items, fst m = Ok items ->
+     2 * N.of_nat (raws_depth items) <= lenN rest /\
+     N.of_nat (raws_depth items) + depth <= der_max_depth + 1).
 Proof.
-  induction fuel as [|f IH]; intros rest c cap Hc; cbn [der_parse_items].
+  induction fuel as [|f IH]; intros rest c cap depth Hc Hd; cbn [der_parse_items].
   { unfold rfail. cbn [fst snd log_cost]. split; [lia|]. split; [log_tac|discriminate]. }
   destruct (der_tag_and_length rest) as [[h r1]|e|e] eqn:HD.
   2,3: unfold rfail, rpanic; cbn [fst snd log_cost]; (split; [lia|]); (split; [log_tac|discriminate]).
@@ -561,66 +570,76 @@ Proof.
   2:{ unfold rfail. cbn [fst snd log_cost]. split; [lia|]. split; [log_tac|discriminate]. }
   destruct (split_at_some _ _ _ _ S1) as [_ Lc].
   rewrite tick_eq. unfold sizeof_rawvalue.
+  fold (der_children f h content depth).
   (* children *)
-  assert (CH : let ch := (if h_compound h then der_parse_items f content 0 0 else rret []) in
-               log_cost (snd ch) <= 216 * lenN content /\ log_ok (snd ch) /\
-               (forall items, fst ch = Ok items -> 2 * N.of_nat (raws_depth items) <= lenN content)).
-  { destruct (h_compound h).
-    - specialize (IH content 0 0 ltac:(lia)). cbn zeta in IH. destruct IH as [I1 [I2 I3]]. cbn zeta.
-      split; [lia|]. split; assumption.
+  assert (CH : let ch := der_children f h content depth in
+               log_cost (snd ch) <= 232 * lenN content /\ log_ok (snd ch) /\
+               (forall items, fst ch = Ok items ->
+                  2 * N.of_nat (raws_depth items) <= lenN content /\
+                  N.of_nat (raws_depth items) + (depth + 1) <= der_max_depth + 1)).
+  { unfold der_children. destruct (h_compound h && (0 <? h_len h)).
+    - destruct (N.ltb_spec der_max_depth (depth + 1)) as [T|T].
+      + cbn zeta. unfold rfail. cbn [fst snd log_cost]. split; [lia|]. split; [log_tac|discriminate].
+      + specialize (IH content 0 0 (depth + 1) ltac:(lia) T). cbn zeta in IH. destruct IH as [I1 [I2 I3]]. cbn zeta.
+        split; [lia|]. split; assumption.
     - cbn zeta. unfold rret. cbn [fst snd log_cost]. split; [lia|]. split; [log_tac|].
-      intros items E. inversion E; subst. cbn. lia. }
+      intros items E. inversion E; subst. cbn [raws_depth fold_right]. split; lia. }
   cbn zeta in CH. destruct CH as [C1 [C2 C3]].
-  destruct (if h_compound h then der_parse_items f content 0 0 else rret []) as [[children|e|e] lch];
+  destruct (der_children f h content depth) as [[children|e|e] lch];
     cbn [fst snd] in *; step_simpl.
   2,3: (split; [lia|]); (split; [log_tac|discriminate]).
-  specialize (C3 children eq_refl).
+  destruct (C3 children eq_refl) as [C3a C3b].
   pose proof (append_grow_cases c cap Hc) as AG.
   destruct (append_grow sizeof_raw c cap) as [cap' lg]. destruct AG as [A1 [A2 [A4 A3]]].
   step_simpl.
   destruct rest' as [|x rest''].
   - step_simpl. split; [lia|]. split; [log_tac|].
     intros items E. inversion E; subst. cbn [raws_depth fold_right raw_depth].
-    fold (raws_depth children). lia.
-  - specialize (IH (x :: rest'') (c + 1) cap' A1). cbn zeta in IH. destruct IH as [I1 [I2 I3]].
+    fold (raws_depth children). split; lia.
+  - specialize (IH (x :: rest'') (c + 1) cap' depth A1 Hd). cbn zeta in IH. destruct IH as [I1 [I2 I3]].
     rewrite rmap_snd. split; [lia|]. split; [log_tac|].
     intros items E. apply rmap_fst_ok in E. destruct E as [tail [E1 ->]].
-    specialize (I3 tail E1). cbn [raws_depth fold_right raw_depth].
-    fold (raws_depth children). fold (raws_depth tail). lia.
+    destruct (I3 tail E1) as [I3a I3b]. cbn [raws_depth fold_right raw_depth].
+    fold (raws_depth children). fold (raws_depth tail). split; lia.
 Qed.
 
 Lemma der_parse_spec : forall data,
-  cost_of (der_parse_raw data) <= 216 * lenN data /\ log_ok (snd (der_parse_raw data)).
+  cost_of (der_parse_raw data) <= 232 * lenN data /\ log_ok (snd (der_parse_raw data)).
 Proof.
   intros. unfold der_parse_raw, cost_of.
-  destruct (der_items_spec (S (length data)) data 0 0 ltac:(lia)) as [H1 [H2 _]]. split; [lia|exact H2].
+  destruct (N.ltb_spec der_max_depth 1) as [T|T].
+  - unfold rfail. cbn [snd log_cost]. split; [lia|log_tac].
+  - destruct (der_items_spec (S (length data)) data 0 0 1 ltac:(lia) T) as [H1 [H2 _]]. split; [lia|exact H2].
 Qed.
 
-(* recursion depth of ParseRaw: at most half the input length *)
+(* recursion depth of ParseRaw: at most half the input length, and at most maxDepth *)
 Lemma der_depth : forall data items l,
-  der_parse_raw data = (Ok items, l) -> (2 * raws_depth items <= length data)%nat.
+  der_parse_raw data = (Ok items, l) ->
+  (2 * raws_depth items <= length data)%nat /\ N.of_nat (raws_depth items) <= der_max_depth.
 Proof.
   intros data items l H. unfold der_parse_raw in H.
-  destruct (der_items_spec (S (length data)) data 0 0 ltac:(lia)) as [_ [_ H3]].
-  rewrite H in H3. specialize (H3 items eq_refl). rewrite lenN_length in H3. lia.
+  destruct (N.ltb_spec der_max_depth 1) as [T|T]; [discriminate|].
+  destruct (der_items_spec (S (length data)) data 0 0 1 ltac:(lia) T) as [_ [_ H3]].
+  rewrite H in H3. destruct (H3 items eq_refl) as [D1 D2]. rewrite lenN_length in D1. split; lia.
 Qed.
 
 (* ParseRaw makes no allocation from a length field at all: the log has growth entries only
    (Bytes and FullBytes are sub-slices of the input) *)
 Definition is_grow (a : alloc) : Prop := match a with Grow _ => True | Make _ _ => False end.
 
-Lemma der_items_grow_only : forall fuel rest c cap,
-  Forall is_grow (snd (der_parse_items fuel rest c cap)).
+Lemma der_items_grow_only : forall fuel rest c cap depth,
+  Forall is_grow (snd (der_parse_items fuel rest c cap depth)).
 Proof.
-  induction fuel as [|f IH]; intros rest c cap; cbn [der_parse_items].
+  induction fuel as [|f IH]; intros rest c cap depth; cbn [der_parse_items].
   { unfold rfail. cbn [snd]. constructor. }
   destruct (der_tag_and_length rest) as [[h r1]|e|e]; try (unfold rfail, rpanic; cbn [snd]; constructor).
   destruct (split_at (h_len h) r1) as [[content rest']|]; [|unfold rfail; cbn [snd]; constructor].
   rewrite tick_eq. cbn [snd]. constructor; [exact I|].
-  set (ch := if h_compound h then der_parse_items f content 0 0 else rret []).
-  assert (CH : Forall is_grow (snd ch)).
-  { subst ch. destruct (h_compound h); [apply IH|unfold rret; cbn [snd]; constructor]. }
-  destruct ch as [[children|e|e] lch]; cbn [snd] in CH; step_simpl; try exact CH.
+  fold (der_children f h content depth).
+  assert (CH : Forall is_grow (snd (der_children f h content depth))).
+  { unfold der_children. destruct (h_compound h && (0 <? h_len h)); [|unfold rret; cbn [snd]; constructor].
+    destruct (der_max_depth <? depth + 1); [unfold rfail; cbn [snd]; constructor|apply IH]. }
+  destruct (der_children f h content depth) as [[children|e|e] lch]; cbn [snd] in CH; step_simpl; try exact CH.
   assert (AG : Forall is_grow (snd (append_grow sizeof_raw c cap))).
   { unfold append_grow. destruct (c =? cap); cbn [snd]; repeat constructor. }
   destruct (append_grow sizeof_raw c cap) as [cap' lg]. cbn [snd] in AG. step_simpl.
@@ -630,7 +649,9 @@ Qed.
 
 Lemma der_parse_grow_only : forall data a, In a (snd (der_parse_raw data)) -> exists s, a = Grow s.
 Proof.
-  intros data a H. pose proof (der_items_grow_only (S (length data)) data 0 0) as G.
+  intros data a H. unfold der_parse_raw in H.
+  destruct (der_max_depth <? 1); [destruct H|].
+  pose proof (der_items_grow_only (S (length data)) data 0 0 1) as G.
   rewrite Forall_forall in G. specialize (G a H). destruct a; [destruct G|now eexists].
 Qed.
 
@@ -717,4 +738,11 @@ Definition rpm_witness : bytes :=
 Lemma rpm_refuted :
   lenN rpm_witness < 8192 /\ 1073741824 < cost_of (rpm_parse rpm_witness) /\
   log_trusting (snd (rpm_parse rpm_witness)) = true.
+Proof. vm_compute. repeat split; reflexivity. Qed.
+
+(* the repository's pre-validation (rpmCheckIndex, repair of F25 for RPM) refuses the witness
+   before go-rpm sees it: nothing is allocated for it *)
+Lemma rpm_witness_guarded :
+  rpm_check_index rpm_witness = false /\ cost_of (rpm_file rpm_witness) = 0 /\
+  log_trusting (snd (rpm_file rpm_witness)) = false.
 Proof. vm_compute. repeat split; reflexivity. Qed.
